@@ -1,6 +1,7 @@
 import Props.Obligations
 import Spec.Tables
 import Ctap.ArbThm
+import Ctap.ArbTree
 /-
   C19 — generated fuzzing inputs are always memory-safe, valid request values (partial).
 
@@ -51,6 +52,22 @@ theorem generators_ok (ty : String) (n : Nat) (draws : List (Nat × Draw)) (h : 
   obtain ⟨p, hp, rfl⟩ := List.mem_map.mp hd
   have := List.all_eq_true.mp caps_ok (ty, n, draws) h
   exact List.all_eq_true.mp this p hp
+
+/-! #### whole requests (G-ARBTREE) -/
+
+/-- the generator call trees of the three request generators, read off the derives and the
+    hand-written impls: the three roots are there, capacities fit `u32`, every enum has a variant -/
+theorem ob_trees : Gen.arbTrees.map (·.1) = ["ctap2::Request", "ctap1::Request", "authenticator::Request"] ∧
+    Gen.arbTrees.all (fun p => p.2.ok) = true := by decide
+
+/-- **Whole-request generation never reaches an `unwrap()` failure, `unreachable!()` or the
+    `from_utf8_unchecked` precondition of ctap-types**, for every input, for each of the three
+    generators — given that the leaf generators of the `arbitrary` crate (integers, `bool`,
+    `&[u8]`, `&str`, foreign derives) do not panic themselves. -/
+theorem whole_requests_fine (name : String) (g : GTree) (h : (name, g) ∈ Gen.arbTrees)
+    (ext : String → List Byte → AR Unit) (hext : ∀ n u, FineU (ext n u)) (u : List Byte) :
+    FineU (runG Gen.arbShape ext g u) :=
+  runG_fine _ shape_good ext hext g u (List.all_eq_true.mp ob_trees.2 (name, g) h)
 
 /-! non-vacuity: without the clamp the `unwrap()` is reachable (so the theorem speaks about the
     extracted shape, not about the model's construction) -/
